@@ -1,4 +1,4 @@
-import QP.Proofs.C09Ops3
+import QP.Proofs.C09Meas
 /-! Proofs of the property theorems of `QP/Props/C09.lean` (stated there again, one line each).
 
 
@@ -72,6 +72,8 @@ theorem op_preserves (op : Op) (s : St) (hs : Coherent s.tree) (hp : Pre op s) :
   | reverse p => exact key _ _ (fun n _ hc => reverse_ok _ n hc)
   | roll p mq q sr => exact key _ _ (fun n _ hc => roll_ok mq q sr _ n hc)
   | copy p kp => exact key _ _ (fun n _ hc => copy_ok kp _ n hc)
+  | addMeas p ms => exact key _ _ (fun n _ hc => addMeas_ok ms _ n hc)
+  | dropMeas p => exact key _ _ (fun n _ hc => dropMeas_ok _ n hc)
 
 /-- Coherence is an invariant of arbitrary histories: any finite list of operations, duration
 queries (`Op.query`, which populate caches) interleaved anywhere. -/
